@@ -867,7 +867,8 @@ def place_body_examples(plan, rng, version, allow_findings):
         out += [((), v1, "allof_20_examples_lost"), ((), v2, None)]
     if mode == "props_in_branch":
         v1, v2 = plan.token(), plan.token()
-        key = rng.choice(["allOf", "anyOf", "oneOf"])
+        # not oneOf: two overlapping object schemas under oneOf make the fill-in of a required body Unsatisfiable (a reported error)
+        key = rng.choice(["allOf", "anyOf"])
         schema = {key: [{"type": "object", "properties": {"a": {"type": "string", "example": v1}}}, {"type": "object", "properties": {"b": {"type": "string", "example": v2}}}]}
         out += [(("a",), v1, "property_inside_branch"), (("b",), v2, "property_inside_branch")]
     if mode == "nested":
@@ -1345,7 +1346,7 @@ def run(chk: core.Check):
     stage_fragments(chk, 400 * mult)
     stage_merge(chk, 120 * mult)
     stage_add_examples(chk, 40 * mult)
-    n_docs = (36 if quick else 400) * (10 if chk.broken else 1)
+    n_docs = (32 if quick else 400) * (10 if chk.broken else 1)
     stage_oracle(chk, n_docs)
     for f in chk.findings:
         chk.known(f, witness_fails(f["witness"]))
